@@ -1139,3 +1139,28 @@ Qed.
 Theorem compaction_noop l ci :
   RepInv (store l) -> ci <= first_of (store l) -> compact (store l) ci = Ok (store l).
 Proof. intros HI H. apply compact_noop; assumption. Qed.
+
+Lemma requested_stale_snapshot_keeps_log_step_full :
+  exists r1 r' mm,
+    request_snapshot w_follower = Ok (r1, E_OK) /\
+    step r1 w_msg = Ok (r', E_OK) /\
+    last_index (r_log r1) = 5 /\ last_index (r_log r') = 5 /\
+    r_log r' = r_log r1 /\
+    r_msgs r' = r_msgs r1 ++ [mm] /\
+    m_type mm = MsgAppendResponse /\ m_index mm = 4 /\ m_reject mm = false.
+Proof.
+  destruct w_requested_ok as (r1 & A & B & _).
+  destruct requested_stale_snapshot_keeps_log_step as (r' & mm & C0 & D).
+  exists r1, r', mm. rewrite <- B. split; [rewrite B; exact A|]. split; [exact C0|exact D].
+Qed.
+
+(* example states used by the non-vacuity Examples in Props/C15.v *)
+Definition ex_leader : raft :=
+  let st := mkMem (mkHS 1 1 5) w_cs [w_ent 4; w_ent 5] 3 1 false false None in
+  mkRaft 1 1 1 [] (mkLog st (u_new 6) 5 5 5 0) 256 1000 0 Leader true 1 None 0 (ro_new 0) 0 0
+         false false false false false 1 10 15 10 20 0%Z u64_max 0 5 u64_max
+         (mkTr [(1, mkPr 5 6 Replicate false 0 0 true (Inflights.new 256) 0 5);
+                (2, mkPr 0 2 Probe false 0 0 true (Inflights.new 256) 0 0);
+                (3, mkPr 5 6 Replicate false 0 0 true (Inflights.new 256) 0 5)]
+               (mkConf [1; 2; 3] [] [] [] false) [] 256 false) [] [] None.
+
